@@ -32,6 +32,13 @@ FINDINGS = {
     "C16-delete-after-recreate-resurrects": "delete, set, delete on a key that is in the file: the set drops the queued delete marker and "
                                             "the second delete sees an object without a file pointer and queues nothing, so the "
                                             "acknowledged delete never reaches the file and the old record is back after re-opening",
+    "C16-double-cease-unblocks-drain": "a delete (or shift) that empties the swamp calls CeaseVigil before Destroy and the handler's deferred "
+                                       "CeaseVigil runs again; when Destroy returns at once because another request is already destroying, "
+                                       "the counter has lost a vigil that belongs to a third request: the drain passes while that request "
+                                       "is in flight, the file is deleted, its acknowledged write is gone",
+    "C16-delete-continues-on-closed-instance": "a Delete request goes on deleting its remaining keys on the instance it holds after its own "
+                                               "auto-destroy has closed that instance: the delete is acknowledged, no delete entry reaches "
+                                               "the file, the record is back after re-opening",
     "C16-stop-returns-before-swamps-closed": "GracefulStop returns while swamps are still mapped (their close has not flushed yet): the "
                                              "process exits and acknowledged writes that were only in memory are gone",
     "C16-summon-replaces-closing-instance": "SummonSwamp does not go back to the swamp map after WaitForGracefulClose: it creates and maps a "
@@ -49,13 +56,14 @@ def spec_violated(rep):
     ops, impl = rep["ops"], rep["impl"]
     live = {}
     pend = {}
+    vigil = set()
     for op, line in zip(ops[1:], impl[1:]):
         f = op.split()
         if f[0] == "set" and line in ("NEW", "UPDATED", "SAME"):
             live[f[1]] = f[2]
         if f[0] == "del" and line == "DELETED":
             live.pop(f[1], None)
-        if f[0] in ("spawn", "spawnw"):
+        if f[0] in ("spawn", "spawnw", "spawnv"):
             pend[f[1]] = f[2:]
         m = re.match(r"(\w) done (\w+)", line)
         if m and m.group(1) in pend:
@@ -64,6 +72,19 @@ def spec_violated(rep):
                 live[p[1]] = p[2]
             if p[0] == "del" and m.group(2) == "DELETED":
                 live.pop(p[1], None)
+            if p[0] == "delm":
+                sts = line.split(" done ", 1)[1].split()[0].split(",")
+                for kk, ss in zip(p[1:3], sts):
+                    if ss == "DELETED":
+                        live.pop(kk, None)
+        mv = re.match(r"(\w)@gw\.set\.vigil", line)
+        if mv:
+            vigil.add(mv.group(1))
+        md = re.match(r"(\w) done ", line)
+        if md:
+            vigil.discard(md.group(1))
+        if line == "tick closed" and vigil:
+            return "the idle listener closed the swamp while request %s holds a vigil on it" % sorted(vigil)
         if "stuck" in line or line == "hang":
             return "request hangs at `%s`" % op
         m2 = re.match(r"stopped open=(\d+)", line)
@@ -86,7 +107,7 @@ def run(ctx):
     corrs = []
     if K.build_hx(ctx) and K.build_drv(ctx):
         args = ["%s=%s" % (k, facts.get(k, "unknown")) for k in
-                ("destroyRechecksAfterDrain", "listenerReadsTouchUnderLock", "summonTakesVigil", "recreateDropsDeleteMarker", "summonWaitsForUnmap", "stopWaitsUntilClosed")]
+                ("destroyRechecksAfterDrain", "listenerReadsTouchUnderLock", "summonTakesVigil", "recreateDropsDeleteMarker", "summonWaitsForUnmap", "stopWaitsUntilClosed", "ceasesVigilOnce", "deleteRefusesClosedInstance")]
         c = K.correspondence(ctx, "C16", args, timeout=900)
         corrs.append(("C16", args, c))
     else:
